@@ -101,6 +101,23 @@ theorem ac_A_chain_total_partial (k : Kern) {t : NT} (hv : t.Valid) {size maxPi 
     ((chainPairs (0 :: l)).map fun lh => aSeg x y b lh.1 lh.2).sum = Aidx x y b :=
   acA_chain_total k hv hb1 hy hps hsm hmb hm64 hsz l hl htb ht64 htop
 
+/-- **C2 over any chain of segments** (partial w.r.t. `ac_loop_eq_def`: the bridge from `c2Set` — the second primes `p j` with
+    `b < j`, `p j ≤ min(x / q², y)`, `x / q³ < p j`, `q = p b` — to the `μ`-presentation `Spec.Cterm`, the level pruning and C1 are
+    not covered): for EVERY strictly increasing chain of segments from 0 to a top above the level's leaf values, every kernel call
+    succeeds and the segment values add up to the sum over ALL of `c2Set` — no leaf twice, none lost, whatever the segment sizes -/
+theorem ac_C2_chain_total_partial (k : Kern) {t : NT} (hv : t.Valid) {size maxPi x y b : ℕ} (hb1 : 1 ≤ b)
+    (hyM : y ≤ maxPi) (hmb : maxPi ≤ t.bound) (hm64 : maxPi < 2 ^ 64) (hsz : Nat.primeCounting y < size)
+    (hpp : p b * p b ≤ ITy.u64.maxVal) (hs64 : Nat.sqrt (x / p b) ≤ ITy.u64.maxVal)
+    (l : List ℕ) (hl : (0 :: l).Pairwise (· < ·))
+    (htb : (0 :: l).getLast (List.cons_ne_nil _ _) ≤ t.bound + 1) (ht64 : (0 :: l).getLast (List.cons_ne_nil _ _) ≤ 2 ^ 64)
+    (htop : ∀ j ∈ c2Set x y b, x / p b / p j < (0 :: l).getLast (List.cons_ne_nil _ _)) :
+    (∀ lh ∈ chainPairs (0 :: l), ∃ sc ss : ℤ,
+      acC2Kernel k t size maxPi lh.1 lh.2 (x / max lh.1 1) (x / lh.2) (x / p b) y b (p b) = .ok (sc, ss) ∧
+        sc + ss = c2Seg x y b lh.1 lh.2) ∧
+    ((chainPairs (0 :: l)).map fun lh => c2Seg x y b lh.1 lh.2).sum
+      = ∑ j ∈ c2Set x y b, ((Nat.primeCounting (x / p b / p j) : ℤ) - b + 2) :=
+  acC2_chain_total k hv hb1 hyM hmb hm64 hsz hpp hs64 l hl htb ht64 htop
+
 /-- summed over the levels `π x⋆ < b ≤ π ⌊x^(1/3)⌋` the per-level sums are Gourdon's `A` -/
 theorem ac_A_levels_total (x y w c3 : ℕ) :
     ∑ b ∈ Finset.Ioc (Nat.primeCounting w) (Nat.primeCounting c3), Aidx x y b = A x y w c3 := (A_eq_index x y w c3).symm
@@ -130,6 +147,24 @@ example := ac_C2_segment_eq .ld64 (NT.build_valid 2000) (size := 18) (maxPi := 1
   (by rw [show Nat.primeCounting 60 = 17 by decide]; norm_num) (by rw [p7]; decide)
   (le_trans (Nat.sqrt_le_self _) (le_trans (Nat.div_le_self _ _) (by decide)))
   (by show 200 ≤ 2000 + 1; norm_num) (by norm_num)
+/-- level `b = 7` (`q = 17`), segments `[0, 240)`, `[240, 480)`: every leaf `x / (17 · p j)`, `j > 7`, is below `100000 / 17 / 19 = 309` -/
+example := ac_C2_chain_total_partial .ld128 (NT.build_valid 2000) (size := 18) (maxPi := 100) (x := 100000) (y := 60) (b := 7)
+  (by norm_num) (by norm_num) (by show 100 ≤ 2000; norm_num) (by norm_num)
+  (by rw [show Nat.primeCounting 60 = 17 by decide]; norm_num) (by rw [p7]; decide)
+  (le_trans (Nat.sqrt_le_self _) (le_trans (Nat.div_le_self _ _) (by decide)))
+  [240, 480] (by simp) (by show 480 ≤ 2000 + 1; norm_num) (by norm_num)
+  (by intro j hj
+      unfold c2Set at hj
+      rw [Finset.mem_filter, Finset.mem_Ioc] at hj
+      have h1 : p 8 ≤ p j := p_le_p (by omega)
+      have h2 : 19 ≤ p 8 := by
+        have := p_lt_p (i := 7) (j := 8) (by norm_num) (by norm_num)
+        rw [p7] at this
+        have h3 := p_odd (i := 8) (by norm_num)
+        omega
+      rw [p7]
+      calc 100000 / 17 / p j ≤ 100000 / 17 / 19 := Nat.div_le_div_left (le_trans h2 h1) (by norm_num)
+        _ < 480 := by norm_num)
 example := ac_A_segment_eq .plain128 (NT.build_valid 2000) (size := 18) (maxPi := 100) (low := 0) (high := 150)
   (x := 100000) (y := 60) (b := 10) (by norm_num) (by norm_num) (by norm_num)
   (by rw [p10]; exact Nat.le_sqrt.2 (by norm_num))
@@ -152,4 +187,5 @@ end Pc.C08EasyAC
 #print axioms Pc.C08EasyAC.ac_C2_segment_eq
 #print axioms Pc.C08EasyAC.ac_segment_additive
 #print axioms Pc.C08EasyAC.ac_A_chain_total_partial
+#print axioms Pc.C08EasyAC.ac_C2_chain_total_partial
 #print axioms Pc.C08EasyAC.ac_A_levels_total
